@@ -31,6 +31,9 @@ def main():
     import gen_cphd
     r7 = gen_cphd.generate(os.path.join(GEN, 'CphdKernels.lean'))
     print('generated:', {'CphdKernels': r7['unsupported']})
+    import gen_openers
+    r8 = gen_openers.generate(os.path.join(GEN, 'Openers.lean'))
+    print('generated:', {'Openers': r8['unsupported'], 'registration': r8.get('registration', {}).get('complex') if r8.get('registration') else None})
     for extra in ('tables_xml',):
         try:
             mod = __import__(extra)
